@@ -245,7 +245,8 @@ def gen_pkce_tables(outdir):
     if not isinstance(cdef, str):
         raise Untranslatable("add_code_challenge: no default code_challenge_method")
     text = ("(* GENERATED by harness/gen_tables.py (gen_pkce_tables) from the current /repo/src — do not edit. *)\n"
-            "From Verif Require Import Lib.Base Lib.PkceTy.\n\n"
+            "From Coq Require Import String.\nFrom Verif Require Import Lib.Base Lib.PkceTy.\n"
+            "Open Scope string_scope.\n\n"
             "Definition server_cc_methods : list (pystr * tr_kind) := [%s].\n"
             "Definition server_default_method : pystr := %s.\n"
             "Definition client_cc_methods : list (pystr * N) := [%s].\n"
@@ -512,7 +513,7 @@ def gen_schema(outdir):
             "true" if ov else "false", "true" if ch else "false", pos))
     text = ("(* GENERATED by harness/gen_tables.py (gen_schema) from the current /repo/src - do not edit.\n"
             "   %d Message subclasses, %d declared parameters. *)\n"
-            "From Verif Require Import Lib.Base Lib.MsgSchema.\n\n"
+            "From Coq Require Import String.\nFrom Verif Require Import Lib.Base Lib.MsgSchema.\n\n"
             "Definition all_classes : list mclass := [\n%s\n].\n" % (len(classes), nparams, ";\n".join(rows)))
     emit(outdir, "Schema.v", text)
 
